@@ -475,6 +475,22 @@ def _walk_tree(stmts, cls, pname, f):
             return f"raise:{nm}"
         elif isinstance(st, (ast.Expr, ast.Pass)) and (isinstance(st, ast.Pass) or isinstance(st.value, ast.Constant)):
             continue
+        elif isinstance(st, ast.Assign) and len(st.targets) == 1 and isinstance(st.targets[0], ast.Name) and st.targets[0].id != pname \
+                and isinstance(st.value, ast.Call) and isinstance(st.value.func, ast.Attribute) and st.value.func.attr in ("lower", "casefold") \
+                and isinstance(st.value.func.value, ast.Name) and st.value.func.value.id == pname and not st.value.args and not st.value.keywords:
+            # `lowered = value.lower()`: evaluated here (a non-string has no such method), then read through the name
+            if cls["type"] != "str":
+                return "raise:AttributeError"
+            tmp, val = st.targets[0].id, st.value
+            rest = stmts[stmts.index(st) + 1:]
+            if any(isinstance(x, ast.Name) and x.id == tmp and isinstance(x.ctx, ast.Store) for r_ in rest for x in ast.walk(r_)):
+                raise AnalysisError(f"C19.2: `{tmp}` is re-bound after `{short(st, 50)}` in {f.qualname}")
+
+            class _Sub(ast.NodeTransformer):
+                def visit_Name(self, n):
+                    return copy.deepcopy(val) if n.id == tmp and isinstance(n.ctx, ast.Load) else n
+
+            return _walk_tree([_Sub().visit(copy.deepcopy(r_)) for r_ in rest], cls, pname, f)
         else:
             raise AnalysisError(f"C19.2: unsupported statement `{short(st, 60)}` in {f.qualname} (decision tree expected)")
     return None
@@ -638,6 +654,13 @@ def check_wiring(ctx, r):
         def atom(e):
             if isinstance(e, ast.Compare) and len(e.ops) == 1 and isinstance(e.ops[0], (ast.Eq, ast.NotEq)) and isinstance(e.comparators[0], ast.Constant):
                 left = e.left
+                if isinstance(left, ast.Name) and left.id != p_item:
+                    # `key = item.lower()` bound once before the tests
+                    from . import c05 as _c05
+
+                    ds_ = _c05._assignments_to(upd, left.id)
+                    if len(ds_) == 1 and ds_[0][2] is None and ds_[0][1] is not None:
+                        left = ds_[0][1]
                 lowered = isinstance(left, ast.Call) and isinstance(left.func, ast.Attribute) and left.func.attr == "lower" and norm(left.func.value) == p_item
                 if lowered or norm(left) == p_item:
                     if lowered:
